@@ -218,7 +218,12 @@ pub fn sweep(space: &str, n: u64, f: &(dyn Fn(u64, &mut Acc) + Sync)) -> Acc {
                 acc.cur_index = i;
                 // sample the first case of a few chunks
                 acc.want_sample = i == a && acc.samples.is_empty();
-                f(i, &mut acc);
+                // a panic that escapes a check's own guards (e.g. inside a law computation) is still
+                // a recorded outcome attributed to this case, never the end of the exploration
+                if let Err(p) = guard(|| f(i, &mut acc)) {
+                    let site = p.site.clone();
+                    acc.vio(&format!("panic-outside-guard:{}", panic_class(&p)), || serde_json::json!({"site": site, "msg": p.msg}));
+                }
             }
             acc
         })
@@ -291,7 +296,9 @@ pub fn rerun(spaces: &[Space], space: &str, index: u64) -> Option<Acc> {
         cur_index: index,
         ..Default::default()
     };
-    (s.run)(index, &mut acc);
+    if let Err(p) = guard(|| (s.run)(index, &mut acc)) {
+        acc.vio(&format!("panic-outside-guard:{}", panic_class(&p)), || serde_json::json!({"site": p.site, "msg": p.msg}));
+    }
     Some(acc)
 }
 
